@@ -233,3 +233,16 @@ def with_break(res, i):
                 return {"ok": False, "consumed": None, "err": (5,), "events": res["events"][:idx + 1]}
             n += 1
     return res
+
+
+def block_transactions(b):
+    """(list of (transaction bytes, witness-stripped bytes) in block order, as far as the block decodes,
+    'ok' or 'err') — from the transaction events of a never-breaking decode"""
+    r = run("block", b)
+    out = []
+    for e in r["events"]:
+        if e[0] == 10:
+            s, total = e[1], e[2]
+            pre = b"".join(b[o:o + l] for (o, l) in ((e[5], e[6]), (e[7], e[8]), (e[9], e[10])))
+            out.append((b[s:s + total], pre))
+    return out, ("ok" if r["ok"] else "err")
